@@ -22,13 +22,37 @@ def fl_term(x):
     return '(FFin %s %s)' % (fw.cz(n), fw.cz(e))
 
 
-class Stream:
-    """Marker for a readable binary stream with the given content."""
+class _ShortReader(io.RawIOBase):
+    """A raw stream that returns at most `burst` bytes per read() (like a pipe or a socket)."""
 
-    def __init__(self, data):
+    def __init__(self, data, burst):
+        self._data = data
+        self._pos = 0
+        self._burst = burst
+
+    def readable(self):
+        return True
+
+    def read(self, n=-1):
+        if n is None or n < 0:
+            n = len(self._data) - self._pos
+        n = min(n, self._burst)
+        chunk = self._data[self._pos:self._pos + n]
+        self._pos += len(chunk)
+        return chunk
+
+
+class Stream:
+    """Marker for a readable binary stream with the given content.  `burst` > 0: the stream returns
+    short reads (at most that many bytes per read call)."""
+
+    def __init__(self, data, burst=0):
         self.data = data
+        self.burst = burst
 
     def open(self):
+        if self.burst:
+            return _ShortReader(self.data, self.burst)
         return io.BytesIO(self.data)
 
     def __repr__(self):
